@@ -126,6 +126,12 @@ def _map_source(F, f, d, op, depth=0, seen=None):
     """where the ModuleMap an operand refers to came from: list of (kind, unit path, term|None):
     'visible' (Package::visible_modules call), 'param' followed to the callers, or 'other'"""
     o = d.origin_op(op, through_calls=THROUGH)
+    # an upvar of a closure (the map captured by a `filter_map(|import| map.file_for_module_name(..))`): follow to the parent
+    idx0 = FL.closure_env_field(o) if f.kind == "Closure" else None
+    if idx0 is not None and depth < 3:
+        pf, po = FL.upvar_origin(F, f.path, idx0)
+        if pf is not None and po.get("l") is not None:
+            return _map_source(F, pf, FL.Defs(pf), {"cp": {"l": po["l"], "p": []}}, depth + 1)
     while o.get("k") == "field" and o.get("base"):
         # a projection of a local tuple: give up on precision, look at the base
         o = o["base"]
